@@ -11,6 +11,7 @@ pub mod c10;
 pub mod c11;
 pub mod c12;
 pub mod c13;
+pub mod c14;
 
 pub type RunFn = fn(&Ctx) -> Finish;
 pub type ReplayFn = fn(&mut Local, &serde_json::Value) -> Result<(), String>;
@@ -28,6 +29,7 @@ pub fn registry() -> Vec<(&'static str, RunFn, ReplayFn)> {
         ("C11", c11::run as RunFn, c11::replay as ReplayFn),
         ("C12", c12::run as RunFn, c12::replay as ReplayFn),
         ("C13", c13::run as RunFn, c13::replay as ReplayFn),
+        ("C14", c14::run as RunFn, c14::replay as ReplayFn),
     ]
 }
 
